@@ -306,13 +306,17 @@ def startsWith (p s : List Char) : Bool := s.take p.length == p
 def chanPrefix : List Char := ['C', 'H', 'A', 'N', '_']
 def chanAuto : List Char := ['C', 'H', 'A', 'N', '_', 'A', 'U', 'T', 'O']
 
-def parseChan (E : Env) (cs : List KV) : Except Err Chan :=
-  let u := upper ((getValue E kChannel cs).getD chanAuto)
+/-- the `channel` value: `Channel(text.upper())` for `CHAN_…`, else `int(text.upper())`. -/
+def parseChanTxt (E : Env) (txt : List Char) : Except Err Chan :=
+  let u := upper txt
   if startsWith chanPrefix u then
     if E.channels.contains u then Except.ok (Chan.enum u) else Except.error Err.channel
   else match parseInt u with
     | some i => Except.ok (Chan.int (intTxt i))
     | none => Except.error Err.channel
+
+def parseChan (E : Env) (cs : List KV) : Except Err Chan :=
+  parseChanTxt E ((getValue E kChannel cs).getD chanAuto)
 
 /-- children of the `k2` blocks among `us`; a *leaf* named `k2` cannot be iterated (LeafKeyvalueError). -/
 def stackKids (E : Env) (k2 : List Char) : List KV → Except Err (List KV)
